@@ -814,6 +814,8 @@ fn judge_daemon(acc: &mut Acc, sc: &Scenario, out: &Outcome) {
             None => {
                 // cause class: what the module had last been told
                 let cause = match (out.dlog.fault, out.dlog.delivered.last()) {
+                    // a decision-class reply the module had already been sent wins over a later fault
+                    (_, Some((s, cs))) if cs[0] != Class::Continue => format!("{}-{s:?}", class_name(cs[0])),
                     (Some(f), _) => format!("fault-{f:?}"),
                     (None, Some((s, cs))) => format!("{}-{s:?}", class_name(cs[0])),
                     (None, None) => "nothing-delivered".to_string(),
